@@ -314,6 +314,8 @@ func C05(c *Ctx) {
 
 	// R05.4: the group leaves the timeout list only after its global state changed
 	r.Rule("R05.4", "a group leaves the timeout list only when it ends: every removeFromTimeoutList of the transaction manager is preceded on every path by a change of the group's global state (a store to GlobalState or setFSM(&txInfo.GlobalState, ..)); a group whose state is still BEGIN stays listed, otherwise it never times out and its finished children are never rolled back.")
+	r.Rule("R05.5", "who is told to roll back is decided on the stored statuses: in processExecuteEvent getTimeoutIBTPsMap - which puts a destination chain into the timeout notification only when its child already reached a final status - runs before setTimeoutRollback overwrites every child with BEGIN_ROLLBACK; in the other order no destination chain of a timed-out group is notified and succeeded children are never rolled back (shared with C06 R06.10).")
+	c.expiryReadBeforeOverwrite("R05.5")
 	nRem := 0
 	isGlobalChange := func(in ssa.Instruction) bool {
 		if storesToField("TransactionInfo", "GlobalState")(in) {
